@@ -21,6 +21,7 @@ type gen struct {
 	base    time.Time
 	tag     int
 	wide    int // percent of update calls that use operators outside the reference model's domain
+	etxn    int // percent of calls that are scripted engine-level transactions
 }
 
 func newGen(r *rand.Rand) *gen {
@@ -405,6 +406,41 @@ func (g *gen) wideUpdate() (bson.D, []bson.D) {
 	return out, af
 }
 
+// engineTxn generates a scripted engine-level transaction (Begin, Transaction.* steps, Commit/Abort). It is
+// judged by the model-free oracles only (Op.Wide).
+func (g *gen) engineTxn(db, c string) Op {
+	op := Op{K: "e.txn", DB: db, C: c, Wide: true, End: pick(g.r, "commit", "commit", "commit", "commit", "abort")}
+	for n := 2 + g.r.IntN(4); n > 0; n-- {
+		var st Op
+		switch g.r.IntN(12) {
+		case 0, 1, 2:
+			st = Op{K: "t.insert", D: jd(g.doc(true))}
+		case 3:
+			st = Op{K: "t.insert", Ordered: g.pct(50)}
+			for k := 2 + g.r.IntN(2); k > 0; k-- {
+				st.Docs = append(st.Docs, jd(g.doc(true)))
+			}
+		case 4, 5, 6:
+			st = Op{K: "t.update", F: jd(pick(g.r, bson.D{}, g.filter())), U: jd(g.update()), After: g.pct(60), Upsert: g.pct(15)}
+			if g.pct(30) {
+				// shift a (possibly unique) key: collides at some document
+				st.U = jd(bson.D{{Key: pick(g.r, "$set", "$inc"), Value: bson.D{{Key: pick(g.r, "a", "b"), Value: int32(1)}}}})
+			}
+		case 7:
+			st = Op{K: "t.delete", F: jd(g.filter()), Limit: g.r.IntN(2)}
+		case 8, 9:
+			st = Op{K: "t.createIndex", D: jd(bson.D{{Key: pick(g.r, "a", "b", "s", "t", "o.p"), Value: int32(1)}}), Unique: g.pct(70)}
+		case 10:
+			st = Op{K: "t.dropIndex", Name: pick(g.r, "a_1", "b_1", "s_1", "t_1", "o.p_1", "nope")}
+		default:
+			st = Op{K: "t.update", F: jd(bson.D{}), U: jd(g.badUpdate()), After: true}
+		}
+		st.DB, st.C = db, c
+		op.Items = append(op.Items, st)
+	}
+	return op
+}
+
 // widen turns an update call into a wide one with probability g.wide percent.
 func (g *gen) widen(op Op) Op {
 	if g.wide == 0 || !g.pct(g.wide) {
@@ -520,7 +556,13 @@ func (g *gen) bulkItem() Op {
 }
 
 // crud generates one driver-level call.
-func (g *gen) crud() Op { return g.widen(g.crudPlain()) }
+func (g *gen) crud() Op {
+	if g.etxn > 0 && g.pct(g.etxn) {
+		db, c := g.coll()
+		return g.engineTxn(db, c)
+	}
+	return g.widen(g.crudPlain())
+}
 
 func (g *gen) crudPlain() Op {
 	db, c := g.coll()
